@@ -92,6 +92,7 @@ package node
 //@     || dyntype(n) == typeid[List]() || dyntype(n) == typeid[Name]() || dyntype(n) == typeid[Local]() || dyntype(n) == typeid[Closure]() || dyntype(n) == typeid[Function]()
 //@     || dyntype(n) == typeid[Call]() || dyntype(n) == typeid[BinOp]() || dyntype(n) == typeid[UnOp]() || dyntype(n) == typeid[IndexAt]() || dyntype(n) == typeid[IndexFromTo]()
 
+//@ pred isNamer(n ByteCoder) bool := dyntype(n) == typeid[Name]() || dyntype(n) == typeid[Local]() || dyntype(n) == typeid[Closure]()
 //@ pred exprOK(n ByteCoder) bool := isExpr(n) && wfAST(n)
 //@ type ByteCoder.byteCode [C05,C12]
 //@   params self, srcsel, fl, cr
@@ -104,6 +105,7 @@ package node
 //@   ensures[K2_data]  dsKept(cr) && crOK(cr)
 //@   ensures[K1_desc]  descOnly(result, srcsel) && operandOK(result, srcsel, len(*cr.DS)) && bck(result, srcsel) != bytecode.AddrImm
 //@   ensures[K1_expr]  isExpr(self) ==> bck(result, srcsel) != bytecode.AddrInv
+//@   ensures[K1_namer] isNamer(self) ==> bck(result, srcsel) == bytecode.AddrGbl || bck(result, srcsel) == bytecode.AddrLcl || bck(result, srcsel) == bytecode.AddrCls
 //@   ensures[K1_tmp]   bck(result, srcsel) == bytecode.AddrTmp ==> !fl.Data().ForbidTemp && (fl.Data().OpDepth > 0 || fl.Data().AcceptTemp || fl.Data().Discard)
 //
 //@ func (Int).byteCode [C05,C12] implements ByteCoder.byteCode
@@ -150,7 +152,6 @@ package node
 //@ func value.NewFunction trusted pure
 //@   callers[range;C15] 0 <= node && node < 4294967296 && 0 <= paramCnt && paramCnt < 65536 && 0 <= localCnt && localCnt < 65536
 //
-//@ pred isNamer(n ByteCoder) bool := dyntype(n) == typeid[Name]() || dyntype(n) == typeid[Local]() || dyntype(n) == typeid[Closure]()
 //@ func (Function).byteCode [C05,C12] implements ByteCoder.byteCode
 //@   assumes[unfold] wfAST(f.Body)
 //@ func (Call).byteCode [C05,C12] implements ByteCoder.byteCode
